@@ -72,8 +72,18 @@ class Walker:
                         val = self._env_get(env, rv["op"]["place"]["l"])      # `let inverted = <matches! temporary>`
                     elif rv["k"] == "unop" and rv.get("op") == "Not" and rv["a"]["k"] in ("copy", "move") and not rv["a"]["place"]["p"]:
                         v0 = self._env_get(env, rv["a"]["place"]["l"])
-                        val = None if v0 is None else (0 if v0 else 1)
+                        val = None if v0 is None or isinstance(v0, tuple) else (0 if v0 else 1)
+                    elif rv["k"] == "aggregate" and rv.get("agg") == "adt" and rv.get("variant") and rv.get("adt") != rv.get("variant") and \
+                            not rv["adt"].endswith("::" + rv["variant"]):
+                        # `let x = if c { Some(..) } else { None }; .. if let Some(v) = x`: along this path the enum local
+                        # visibly has this variant (until it is written or lent out mutably)
+                        val = ("variant", rv["variant"])
                     env = self._env_set(env, dst["l"], val)
+                    if rv["k"] == "ref" and rv.get("mut") and self._env_get(env, rv["place"]["l"]) is not None and \
+                            isinstance(self._env_get(env, rv["place"]["l"]), tuple):
+                        env = self._env_set(env, rv["place"]["l"], None)
+                elif isinstance(self._env_get(env, dst["l"]), tuple):
+                    env = self._env_set(env, dst["l"], None)      # a field of the tracked enum local is written
             ev = self.watch(self.fn, (bid, i), st)
             if ev is not None:
                 events.append(ev)
@@ -108,6 +118,12 @@ class Walker:
                 for v, tb, name in t["targets"]:
                     if name == dv:
                         forced = tb
+            elif "discr_of" in t and not t["discr_of"]["p"] and isinstance(self._env_get(env, t["discr_of"]["l"]), tuple):
+                want = self._env_get(env, t["discr_of"]["l"])[1]
+                forced = t["otherwise"]
+                for v, tb, name in t["targets"]:
+                    if name == want:
+                        forced = tb
             elif "discr_of" in t:
                 pk = place_key(t["discr_of"])
                 vmap = None
@@ -132,7 +148,7 @@ class Walker:
                     # a variant listed explicitly elsewhere never takes this edge
             elif d["k"] in ("copy", "move") and not d["place"]["p"]:
                 val = self._env_get(env, d["place"]["l"])
-                if val is not None:
+                if val is not None and not isinstance(val, tuple):
                     forced = t["otherwise"]
                     for v, tb, name in t["targets"]:
                         if v == val:
